@@ -347,7 +347,7 @@ def run(ctx):
             return None
         g = C.G(prim.event_graph(aa, role))
         lim = g.nodes("limiters")
-        ok = len(lim) == 1 and all(C.base(x) == "push" for x in g.succ(lim[0], "0")) and bool(g.succ(lim[0], "0")) and all(x.startswith("RET(call:FromResidual") for x in g.succ(lim[0], "1")) \
+        ok = len(lim) == 1 and all(C.base(x) == "push" for x in g.succ(lim[0], "0")) and bool(g.succ(lim[0], "0")) and all(C.is_err_ret(x) for x in g.succ(lim[0], "1")) \
             and not [n for n in g.out if C.base(n).startswith("othermut")]
         ok = ok and all(x == "RET(agg:Result::Ok)" for p_ in g.nodes("push") for x in g.succ(p_))
         ctx.ob("R3", "add_arg-shape", ok, "add_arg must offer the argument to the limiters and append it (push, at the end) exactly when accepted, otherwise hand the refusal back; events: %s" % g.fmt(), fn=aa, how="event graph")
@@ -375,7 +375,7 @@ def run(ctx):
         g = C.G(prim.event_graph(on, role))
         nx = g.nodes("next_initial")
         ch = g.nodes("charge")
-        ok = len(nx) == 1 and len(ch) == 1 and g.succ(nx[0], "1") == ch and all(x == nx[0] for x in g.succ(ch[0], "0")) and all(x.startswith("RET(call:FromResidual") for x in g.succ(ch[0], "1")) and g.succ(nx[0], "0") == ["RET(agg:Result::Ok)"]
+        ok = len(nx) == 1 and len(ch) == 1 and g.succ(nx[0], "1") == ch and all(x == nx[0] for x in g.succ(ch[0], "0")) and all(C.is_err_ret(x) for x in g.succ(ch[0], "1")) and g.succ(nx[0], "0") == ["RET(agg:Result::Ok)"]
         ctx.ob("R4", "initial-args-charged-once", ok, "CommandBuilderOptions::new must offer every initial argument exactly once to the template limiters and fail if one is refused; events: %s" % g.fmt(), fn=on, how="event graph")
         for b in on.reachable():
             for s in on.blocks[b].stmts:
@@ -520,8 +520,8 @@ def _one_pass(edges, asg):
     first = True
     for _ in range(100):
         if cur.startswith("RET("):
-            if "FromResidual" in cur:
-                seq.append("RET:residual")
+            if "FromResidual" in cur or cur == "RET(agg:Result::Err)":
+                seq.append("RET:residual")      # an error handed on as it is (`?`, or `return Err(e)` without a payload of its own)
             elif "Result::Err" in cur:
                 seq.append("RET:err")
             elif "Result::Ok" in cur:
